@@ -27,6 +27,10 @@ def run(ctx) -> None:
              "both the lazy and the eager arm")
     ctx.rule("R-MEANAXES", "reduce_ensemble selects exactly the axes whose metadata carries _ensemble_mean and "
              "returns self.mean over those axes")
+    ctx.rule("R-COPYGUARD", "(shared with C38) one propagator — one CachedFFTWConvolution — serves all configurations "
+             "of a multislice_and_detect call: its cached FFTW plans may be executed only while bound (creation / "
+             "update_arrays) to the array of the current call, else configuration k is propagated on the buffer left "
+             "by configuration k-1")
     ctx.undecided("numerical equality with independent runs; sigma handling; that the mean equals the arithmetic mean")
 
     for fn in ("multislice_and_detect", "transition_potential_multislice_and_detect"):
@@ -141,6 +145,11 @@ def run(ctx) -> None:
     ctx.check(okm, "R-MEANAXES", f"{re_.qualname}", re_.loc(mr), "mean over exactly the _ensemble_mean axes",
               f"reduce_ensemble averages over {detail or norm_text(axarg) if axarg is not None else '?'} — not the "
               "axes flagged _ensemble_mean", key_detail="axes")
+
+    # ---------------- R-COPYGUARD (stateful convolution reused across configurations; the rule lives in c38)
+    from . import c38
+
+    c38._copyguard_cached(ctx, repo)
 
 
 def _stmt_of(func: ast.FunctionDef, node: ast.AST) -> ast.stmt:
